@@ -355,3 +355,51 @@ Proof.
       unfold browser_srvtxt. cbn [orb]. rewrite Hty, X1. cbn [bs_data]. rewrite Hend. reflexivity.
   - repeat constructor; [rewrite P2|rewrite S2|rewrite X2]; reflexivity.
 Qed.
+
+(* ------------------------------------------------------------------ any number of browsers *)
+(* what the invariants say about one browser, in plain terms *)
+Definition reports_served (T : bytes) (c : comp) (w : world) : Prop :=
+  exists cch b, w = mkWorld [cch] [b] 0 /\
+    (pv_exists (cp_prov c) = true -> pv_confirmed (cp_prov c) = true ->
+       exists nm, r_name (pv_srv (cp_prov c)) = Some (nm ++ DOT :: T) /\
+                  b_services b = [(nm ++ DOT :: T, svc_of T nm (pv_srv (cp_prov c)) (pv_txt (cp_prov c)))] /\
+                  held cch = [pv_ptr (cp_prov c); pv_srv (cp_prov c); pv_txt (cp_prov c)]) /\
+    (pv_exists (cp_prov c) && pv_confirmed (cp_prov c) = false -> b_services b = [] /\ held cch = []).
+
+Lemma BI_reports_served T c L w : CInv c L -> BI T L w -> reports_served T c w.
+Proof.
+  intros Iv IB.
+  inversion IB as [cch b Ce Hty Hc Hsv|p s t nm cch b G Hh Hty Hc Hsv]; subst; exists cch, b; (split; [reflexivity|]); split.
+  - intros Ex Cf. destruct (ci_served _ _ Iv Ex Cf) as (_ & _ & _ & _ & HL). discriminate.
+  - intros _. split; [exact Hsv|]. unfold held. rewrite Ce. reflexivity.
+  - intros Ex Cf. destruct (ci_served _ _ Iv Ex Cf) as (_ & _ & _ & _ & HL). injection HL as -> -> ->.
+    exists nm. destruct G as ([_ (S1 & _) _] & _). auto.
+  - intros U. pose proof (ci_unserved _ _ Iv U). discriminate.
+Qed.
+
+(* one provider, any number of passive browsers (each of type T or enumerating, each with its own cache), each hearing every
+   multicast response in order *)
+Inductive preachN (T : bytes) : comp -> list record -> list world -> Prop :=
+| prN_init local ifs bts : Forall (fun bt => Interested bt T) bts ->
+    preachN T (mkComp (fst (on_rebroadcast (mkHost local ifs [] [] false 1))) no_prov None) []
+            (map (fun bt => mkWorld [empty_cache] [mkBrowser bt 0 [] [] []] 0) bts)
+| prN_step c L ws now nowb ev : preachN T c L ws -> one_provider c ev -> ev_type_ok T ev ->
+    preachN T (fst (comp_handle now c ev)) (listen L (snd (comp_handle now c ev)))
+            (map (fun w => fst (bhear nowb w (snd (comp_handle now c ev)))) ws).
+
+Theorem every_browser_reports_what_is_served T c L ws :
+  T <> [] -> bytes_eqb T browse_type = false -> preachN T c L ws -> Forall (reports_served T c) ws.
+Proof.
+  intros HT Hbr R.
+  assert (Inv : CInv c L /\ TInv T c /\ Forall (BI T L) ws).
+  { induction R as [local ifs bts Hb|c L ws now nowb ev R (Iv & IT & IB) One Ty].
+    - split; [apply (lreach_inv _ _ (lr_init local ifs))|]. split; [constructor; cbn [cp_prov no_prov pv_exists]; discriminate|].
+      apply Forall_forall. intros w Hw. apply in_map_iff in Hw as (bt & <- & Hbt).
+      apply bi_none; try reflexivity. exact (proj1 (Forall_forall _ _) Hb bt Hbt).
+    - split; [apply comp_step_inv; assumption|]. split; [apply (comp_step_T T now c ev L Iv IT One Ty)|].
+      apply Forall_forall. intros w' Hw. apply in_map_iff in Hw as (w & <- & Hw).
+      apply (pair_step bhear bhear_app bhear_silent hear_goodbye_effect hear_fresh_effect hear_over_effect T now nowb c ev L w HT Hbr Iv IT
+                       (proj1 (Forall_forall _ _) IB w Hw) One Ty). }
+  destruct Inv as (Iv & _ & IB). apply Forall_forall. intros w Hw.
+  apply (BI_reports_served T c L w Iv (proj1 (Forall_forall _ _) IB w Hw)).
+Qed.
